@@ -3,10 +3,10 @@ package main
 // C20 — progress line: clamp and ladder structure.
 
 import (
-	"sort"
-	"go/types"
 	"fmt"
 	"go/token"
+	"go/types"
+	"sort"
 	"strings"
 
 	"golang.org/x/tools/go/ssa"
@@ -20,6 +20,7 @@ func init() {
 			c.run("C20-R3", "WHO-WRITES: the displayed step never decreases within a file", c20R3)
 			c.run("C20-R4", "GUARD-DOM: layout ladder", c20R4)
 			c.run("C20-R5", "GUARD-DOM: name shortening measures by display width", c20R5)
+			c.run("C20-R6", "MUST-PASS/WHO-WRITES: the width the line is laid out for is the latest width reported to the filter", c20R6)
 		})
 }
 
@@ -163,7 +164,10 @@ func c20R3(c *Ctx) {
 		c.bad("fileStep/writers", "", fmt.Sprintf("expected three writers of the displayed step, found %d", n))
 	}
 	// resumed files: the bytes kept from the existing file count towards the step and the size, and are forgotten with the next file
-	type w struct{ fn, key string; ok func(st *ssa.Store) bool }
+	type w struct {
+		fn, key string
+		ok      func(st *ssa.Store) bool
+	}
 	nPre := 0
 	for _, f := range c.AllFns {
 		fname := c.fnName(f)
@@ -448,4 +452,77 @@ func c20R5(c *Ctx) {
 		b, isB := strip(r.Results[1]).(*ssa.BinOp)
 		c.check(isB && b.Op == token.ADD && isConstIntV(3)(b.Y), "getEllipsisString/returns-width+3", c.ipos(r), "the reported width includes the dots", "the reported width does not include the dots")
 	})
+}
+
+// c20R6: the width the line is laid out for is the terminal's latest width. A resize reported to the
+// filter is recorded on every path (the next bar is built from that record, and the stop prompt puts the
+// record back into the live bar), and is forwarded to a live bar; the bar's setter and constructor store
+// what they are given. Decided: the wiring; not decided: that the embedding application reports resizes.
+func c20R6(c *Ctx) {
+	f := c.fn("TrzszFilter.SetTerminalColumns")
+	isCols := func(v ssa.Value) bool { p, ok := strip(v).(*ssa.Parameter); return ok && p == f.Params[1] }
+	recorded := func(in ssa.Instruction) bool {
+		st, ok := in.(*ssa.Store)
+		if !ok {
+			return false
+		}
+		n, _ := fieldAddrName(st.Addr)
+		return strings.HasSuffix(n, ".TerminalColumns") && isCols(st.Val)
+	}
+	hit, path := reachFrom(f.Blocks[0], 0, isReturn, recorded)
+	c.check(hit == nil, "SetTerminalColumns/always-recorded", c.pos(f.Pos()), "a reported width is recorded on every path", "a reported width is not recorded when a progress bar is live: the next bar (and the bar after the stop prompt) is laid out for the old, possibly wider terminal", c.pathStr(path)...)
+	fwd := callsIn(f, idIs("(*trzsz.textProgressBar).setTerminalColumns"))
+	c.check(len(fwd) > 0, "SetTerminalColumns/forwarded", c.pos(f.Pos()), "a reported width is forwarded to the live bar", "a reported width is not forwarded to the live progress bar")
+	for _, ci := range fwd {
+		c.check(isCols(ci.Common().Args[1]), "SetTerminalColumns/forwards-its-argument", c.ipos(ci), "the forwarded width is the reported one", "the width forwarded to the live bar is not the reported one")
+	}
+	// the only other source of a live bar's width is the filter's record
+	n := 0
+	for _, g := range c.AllFns {
+		if g == f {
+			continue
+		}
+		for _, ci := range callsIn(g, idIs("(*trzsz.textProgressBar).setTerminalColumns")) {
+			n++
+			c.check(isFieldLoad("TerminalColumns")(ci.Common().Args[1]), c.fnName(g)+"/width-from-record", c.ipos(ci), "the width put back into the bar is the filter's record", "a width other than the filter's record is put into the live bar")
+		}
+		for _, ci := range callsIn(g, idIs("trzsz.newTextProgressBar")) {
+			if !strings.HasPrefix(c.fnName(g), "TrzszFilter.") {
+				continue
+			}
+			n++
+			c.check(isFieldLoad("TerminalColumns")(ci.Common().Args[1]), c.fnName(g)+"/bar-built-from-record", c.ipos(ci), "the client's bar is built for the recorded width", "the client's progress bar is built for a width other than the filter's record")
+		}
+	}
+	if n < 2 {
+		c.undecided("width-from-record/sites", "fewer width hand-overs than expected")
+	}
+	// setter and constructor store what they were given
+	for _, nm := range []string{"textProgressBar.setTerminalColumns", "newTextProgressBar"} {
+		g := c.fn(nm)
+		var stores []ssa.CallInstruction
+		for _, ci := range callsIn(g, anyID) {
+			if isAtomicOnField(ci, "columns", "Store") {
+				stores = append(stores, ci)
+			}
+		}
+		if len(stores) == 0 {
+			c.bad(nm+"/stores-width", c.pos(g.Pos()), "the width is never stored")
+			continue
+		}
+		for _, ci := range stores {
+			okV := true
+			for _, l := range origins(ci.Common().Args[1], originOpts{}) {
+				if isVar("columns")(l.V) {
+					continue
+				}
+				// the constructor may derive it from the pane width (pane - 1)
+				if b, isB := strip(l.V).(*ssa.BinOp); isB && nm == "newTextProgressBar" && b.Op == token.SUB && isConstIntV(1)(b.Y) {
+					continue
+				}
+				okV = false
+			}
+			c.check(okV, nm+"/stores-width", c.ipos(ci), "the stored width is the one given (or pane width - 1)", "the stored width is not the one given")
+		}
+	}
 }
